@@ -19,7 +19,9 @@ import lib
 from checks import c04
 
 GEN = {"specials": 0.3, "undef": 0.06, "prose": 0.05}
-BREAKERS = ['"', "%", "(", ")", "[", "]", "=", "/", "\r", "\n", "\r\n", "<", ">", "*", ";", "@", "\x00", "é", "\U0001F600", "-", ".", " "]
+BREAKERS = ['"', "%", "(", ")", "[", "]", "=", "/", "\r", "\n", "\r\n", "<", ">", "*", ";", "@", "\x00", "é", "\U0001F600", "-", ".", " ",
+            # characters that Python's str.splitlines / str.isspace treat as line ends or blanks but ABNF does not
+            "\x0b", "\x0c", "\x1c", "\x1d", "\x1e", "\x85", "\u2028", "\u2029", "\xa0", "\u3000", "\t"]
 
 
 def corrupt(rng, text):
